@@ -220,18 +220,18 @@ class ConstantStreamGenerator(Elaboratable):
             with m.State('IDLE'):
 
                 # Keep ourselves at the beginning of the stream, but don't yet count.
-                m.d.sync += [
-                    position_in_stream  .eq(start_position),
-                    bytes_sent          .eq(0)
-                ]
+                m.d.sync += position_in_stream.eq(start_position)
                 m.d.comb += [
                     rom_read_port.addr  .eq(start_position),
                 ]
 
-                # Latch the maximum length.
-                m.d.sync += [
-                    max_length          .eq(self.max_length),
-                ]
+                # Reset our byte counter and latch the maximum length; these only exist
+                # as signals if we were created with a max_length_width.
+                if self._max_length_width:
+                    m.d.sync += [
+                        bytes_sent          .eq(0),
+                        max_length          .eq(self.max_length),
+                    ]
 
                 # Once the user requests that we start, move to our stream being valid.
                 with m.If(self.start & (self.max_length > 0)):
